@@ -143,3 +143,60 @@ def scaled_documents():
                     cfgs.append((w, frac, docalg.ribbon_width(w, frac)))
             out.append((term, cfgs))
     return out
+
+
+def many_groups_configs():
+    return [(n, w, f) for n in (3, 400, 700) for (w, f) in ((11, 1.0), (8, 1.0), (7, 1.0), (6, 1.0), (40, 0.2), (40, 0.175), (79, 0.1))]
+
+
+def check_many_groups(part, prop):
+    """A long top-level sequence of n small independent groups  group('aaa' LINE 'bbb') ',' LINE ...  : more
+    than a thousand documents are pending while the early groups are decided.  The layout set has 2**n
+    members, so the reference here is the closed form of this family: group i is flat iff its one-line
+    form plus the comma after it ends within min(width, ribbon) - required (C05) and sufficient (C06)."""
+    from prettyprinter import doc as Dc
+    for n, width, frac in many_groups_configs():
+        rw = docalg.ribbon_width(width, frac)
+        limit = min(width, rw)
+        parts = []
+        for i in range(n):
+            parts.append(Dc.group(Dc.concat(['aaa', Dc.LINE, 'bbb'])))
+            if i < n - 1:
+                parts += [',', Dc.LINE]
+        d = Dc.concat(parts)
+        for sname, layout in strategies():
+            part.n += 1
+            case = {'family': 'many-groups', 'n': n, 'width': width, 'frac': frac, 'strategy': sname}
+            try:
+                text = docalg.tokens_text(docalg.observe(layout(d, width=width, ribbon_frac=frac)))
+            except Exception as e:     # noqa
+                part.violation('layout-exception', case, '%s: %s' % (type(e).__name__, e))
+                continue
+            lines = text.split('\n')
+            part.c['tokens'] += len(lines)
+            bad = None
+            i = li = 0
+            while i < n and li < len(lines):
+                tail = ',' if i < n - 1 else ''
+                fits = 7 + len(tail) <= limit
+                if lines[li] == 'aaa bbb' + tail:
+                    if not fits and prop == 'C05':
+                        bad = ('flat-group-overflows', i, lines[li])
+                        break
+                    li += 1
+                elif lines[li] == 'aaa' and li + 1 < len(lines) and lines[li + 1] == 'bbb' + tail:
+                    if fits and prop == 'C06':
+                        bad = ('broke-although-it-fits', i, lines[li] + ' / ' + lines[li + 1])
+                        break
+                    li += 2
+                else:
+                    bad = ('not-a-member', i, lines[li])
+                    break
+                i += 1
+            if bad is None and (i != n or li != len(lines)):
+                bad = ('not-a-member', i, 'groups consumed %d of %d, lines %d of %d' % (i, n, li, len(lines)))
+            if bad:
+                part.violation(bad[0], case, {'group_index': bad[1], 'line': bad[2], 'limit': limit})
+            else:
+                part.nontrivial += 1
+    part.c['many_groups_documents'] += len(many_groups_configs())
